@@ -365,6 +365,20 @@ func (n *ConnNet) DeliverBytes(to *SimConn, data []byte, eof bool) {
 	wait()
 }
 
+// DeliverAt delivers a record at exactly the given fake instant (no wire time on top): timers
+// of the simulated routers that are due at the same instant fire together with the delivery.
+func (n *ConnNet) DeliverAt(r *Record, at time.Time) {
+	n.Remove(r)
+	if n.OnDeliver != nil {
+		n.OnDeliver(r)
+	}
+	if d := time.Until(at); d > 0 {
+		time.Sleep(d)
+	}
+	r.dst().push(r.Data, r.EOF)
+	wait()
+}
+
 // DeliverSplit delivers a record in several short reads.
 func (n *ConnNet) DeliverSplit(r *Record, cuts []int) {
 	n.Remove(r)
